@@ -293,6 +293,7 @@ namespace PSC {
     private:
         Variable *ptr = nullptr;
         Context *varCtx = nullptr;
+        unsigned long varCtxId = 0;
 
     public:
         const std::string definitionName;
@@ -308,6 +309,8 @@ namespace PSC {
         Variable *getValue() const;
 
         const Context *getCtx() const;
+
+        unsigned long getCtxId() const;
 
         const PointerTypeDefinition &getDefinition(Context &ctx) const;
     
